@@ -530,6 +530,7 @@ fn tname() -> String {
 }
 
 fn on_event(kind: u32, addr: usize, aux: usize) {
+    crate::sched::note_event(kind);
     use circ::verif::ev;
     with(|s| {
         let x = match s.by_addr.get(&addr) {
